@@ -47,6 +47,15 @@ def parse_doc(data, clazz, handler, context=None, via="bytes", tmpdir=None, xinc
         warnings.simplefilter("error", ConverterWarning)
         if via == "bytes":
             return p.from_bytes(data, clazz)
+        if via == "tree":  # an already parsed tree that kept its comments and processing instructions
+            if handler == "lxml":
+                from lxml import etree
+
+                return p.parse(etree.fromstring(data, etree.XMLParser(remove_comments=False, remove_pis=False, resolve_entities=False)).getroottree(), clazz)
+            import io
+            import xml.etree.ElementTree as ET
+
+            return p.parse(ET.parse(io.BytesIO(data)), clazz)
         path = os.path.join(tmpdir, "doc.xml")
         with open(path, "wb") as f:
             f.write(data)
@@ -104,11 +113,18 @@ def check(ctx, model, style, loaded, obj, cfg, writer, seed, encoding, w_extra=N
             continue
         tmp = None
         try:
-            via = "bytes"
-            if rng.random() < 0.25:
+            via, xinc = "bytes", False
+            r = rng.random()
+            if r < 0.2:
                 via = "path"
                 tmp = tempfile.mkdtemp(prefix="xsdata-verif-c09-")
-            b = parse_doc(data, type(obj), handler, via=via, tmpdir=tmp)
+                xinc = handler == "lxml" and rng.random() < 0.5  # XInclude processing switched on for a document without includes
+            elif r < 0.4 and (handler == "lxml" or not marks_have_qnames(marks)):
+                # an ElementTree tree carries no prefix declarations: documents with QName content are not
+                # "the same infoset" once they are in that form (C08 applies the same rule)
+                via = "tree"
+            ctx.feature(f"source:{via}{'+process_xinclude' if xinc else ''}")
+            b = parse_doc(data, type(obj), handler, via=via, tmpdir=tmp, xinclude=xinc)
         except Exception as e:  # noqa: BLE001
             ctx.violation(f"rewritten-rejected/{handler}/{mech(applied)}/{bc.short_exc(e)}", f"parse of the rewritten document raised {type(e).__name__}: {e}\napplied={sorted(applied)}\n{data[:1500]!r}", w)
             continue
@@ -186,6 +202,10 @@ def check_xinclude(ctx, model, style, loaded, obj, cfg, writer, seed):
                 ctx.violation(f"parse-differs/{handler}/xinclude/{bc.diff_key(model, a, d)}", f"{d}\n{main[:800]!r}\n{part[:500]!r}", w, known_key=classify_xinclude(handler, has_q, None))
     finally:
         shutil.rmtree(tmp, ignore_errors=True)
+
+
+def marks_have_qnames(e):
+    return bool(e.qname_text or e.qname_attrs) or any(marks_have_qnames(x) for x in e.items if isinstance(x, rewrite.E))
 
 
 def has_qname_content(loaded, obj, cfg, xml):
